@@ -429,3 +429,6 @@ package model
 //@   use T0(derefT(exprType(structNode)))
 //@   iterates cb count nMethodsOf(exprType(structNode)) elem box(StructMethodNode{container: structNode, method: methodAt(namedOf(exprType(structNode)), $i)}) when compliesGetter(methodAt(namedOf(exprType(structNode)), $i))
 //@   iter IterateMethods invariant $it.next == $k && $it.stopped == $done
+//@
+//@ func NewCopier(name, lhs, rhs) (r)
+//@   ensures fresh(r)
